@@ -27,6 +27,13 @@ def rand_gff3_graph(r, n=None, depth=4, dangling=True):
         k = 0 if level == 0 else r.choice([1, 1, 1, 2, 3])
         parents = r.sample(cands, min(k, len(cands))) if cands else []
         pids = [p["id"] for p in parents]
+        if parents and r.random() < 0.3:
+            # also name a parent of one of the parents (so a pair is related at level 1 AND level 2),
+            # or any other earlier feature of a shallower level
+            up = [q for q in parents[0]["parents"] if not q.startswith("ghost")] or \
+                 [x["id"] for x in nodes if x["level"] < level - 1]
+            if up:
+                pids.append(r.choice(up))
         if dangling and r.random() < 0.15:
             pids.append("ghost%d" % r.randrange(3))
         if r.random() < 0.08 and pids:
